@@ -11,6 +11,7 @@ from ..paths import ExcHierarchy, PathInterp
 from ..report import Ctx
 from ..runner_rules import RUNNER, analyse_runner, definite
 from ..selftest import Mutant, synthetic_overlay
+PAR = 'pyphysim/simulations/parameters.py'
 
 RES = 'pyphysim/simulations/results.py'
 
@@ -25,7 +26,7 @@ EXPLANATION = (
     'per-variation routine passes the unconditional final save. C07.d: loaded partial results are returned only '
     'after the parameter comparison, whose mismatch raises a class not swallowed by the enclosing handlers. '
     'C07.e: partial files are deleted only after the final file was saved. Not decided: fsync-level durability, '
-    'concurrent writers, restartability of the user iteration.')
+    'concurrent writers, restartability of the user iteration. C07.f: the parameter comparison behind the resume guard never compares mapping keys as sequences (insertion order).')
 
 
 def _reachable_from_save(ctx: Ctx) -> List[FuncInfo]:
@@ -401,6 +402,12 @@ def synthetic():
 
 
 MUTANTS = [
+    Mutant('parameter-names-compared-in-insertion-order', PAR, 'SimulationParameters.__eq__',
+           [('replace', 'set(self.parameters.keys()) != set(other.parameters.keys())', 'list(self.parameters.keys()) != list(other.parameters.keys())')],
+           r'C07\.f:SimulationParameters\.__eq__:ordered-keys'),
+    Mutant('benign-parameter-names-compared-as-key-views', PAR, 'SimulationParameters.__eq__',
+           [('replace', 'set(self.parameters.keys()) != set(other.parameters.keys())', 'self.parameters.keys() != other.parameters.keys()')],
+           None, benign=True),
     Mutant('revert-fix-direct-write-json', RES, 'SimulationResults._save_to_json',
            [('regex', r"with open\(\w+, 'w'\)", "with open(filename, 'w')")], r'C07\.a:SimulationResults\._save_to_json'),
     Mutant('revert-fix-no-replace-pickle', RES, 'SimulationResults._save_to_pickle',
